@@ -299,8 +299,6 @@ pub fn run(ctx: &Ctx) -> Report {
             }
         }
     }));
-    rep.local.states.extend(rep.local.nontrivial.iter().copied());
-    rep.local.transitions = rep.local.evaluations;
     rep.assumptions = vec!["a level-0 constant opens a new scope for following locals in this assembler; positions where that matters are Unspecified for the moved-constant family".into()];
     for c in ["ref-success", "ref-error:undefined symbol", "ref-error:duplicate symbol", "ref-error:declaration skips a nesting level", "ref-error:cyclic constant definition", "moved-constant"] {
         rep.require_class(c);
